@@ -285,6 +285,7 @@ class E712:
         ms = self.members(n)
         if not isinstance(v, Obj): raise Rej('object')
         buf = keccak256(self.encode_type(n).encode())
+        if len({m for m, _ in ms}) != len(ms): self.unc = True  # a member name declared twice: refusal and double encoding both defensible
         for mn, mt in ms:
             hits = [val for key, val in v.pairs if key == mn]
             if not hits: raise Rej('missing ' + mn)
